@@ -124,7 +124,7 @@ func (s *rsearch) run(c *fx.Ctx) {
 				}
 				if s.checkVerdict {
 					if err == nil && mv == rulesmodel.Reject {
-						c.Violation(fmt.Sprintf("accepts-invalid:%s@%s", evClass(e), ctxName),
+						c.Violation(fmt.Sprintf("accepts-invalid(%s):%s@%s", m.Reason, evClass(e), ctxName),
 							fmt.Sprintf("validator ACCEPTS %s after [%s] but the document is not well-formed there", e.Key(), ev.Join(s.events(cur.path, -1))),
 							rwitness{Events: s.events(cur.path, ai)})
 					}
